@@ -14,6 +14,7 @@ break the full parsing, and result in a single Junk entry.
 import re
 from xml.dom import minidom
 from xml.dom.minidom import Node
+from xml.sax.saxutils import quoteattr
 
 from .base import (
     CAN_SKIP,
@@ -201,7 +202,9 @@ class AndroidParser(Parser):
                 '<?xml version="1.0" encoding="utf-8"?>\n<resources',
             )
             for attr_name, attr_value in docElement.attributes.items():
-                yield DocumentWrapper(attr_name, f' {attr_name}="{attr_value}"')
+                yield DocumentWrapper(
+                    attr_name, f" {attr_name}={quoteattr(attr_value)}"
+                )
             yield DocumentWrapper(">", ">")
         child_num = 0
         while child_num < len(root_children):
